@@ -80,6 +80,8 @@ def run(ctx, tier):
                    "differ between the twins and is left out of W5)")
     ctx.rule("W10", "where the parser sets url's host to base's host, the aggregator hands the base's host text to a function that can "
                      "leave the url without authority (a null host stays null, as in ada::url's optional copy)")
+    ctx.rule("W11", "(shared with C01.T11) the search / hash getters of both types return the empty string for a null and for an empty "
+                     "component; ada::url's host getter appends the port whenever it is not null (as the aggregator's buffer does)")
     ctx.rule("W8", "the host parsers of the two types send the same byte values down the IDNA (unicode::to_ascii) route")
     ctx.rule("W6", "the setters of the two URL types normalise their input by the same steps in the same order")
     ctx.rule("W1", "twin implementations have the same validation skeleton")
@@ -90,6 +92,8 @@ def run(ctx, tier):
     for name in cfgs:
         ctx.set_config(name)
         check(ctx, fxs[name])
+        from rules import helpers_spec as _HS
+        _HS.check_getter_empties(ctx, fxs[name], "W11")
         check_ipv6_twins(ctx, fxs[name])
         check_setter_steps(ctx, fxs[name])
         from rules import c04_layout
